@@ -131,6 +131,15 @@ func VerifyFunc(w *World, spec *FuncSpec, prop string, safetyAll bool) (res *Fun
 			x.bindingFailure(fmt.Sprintf("exit clause %q applies at no return of %s", e.Name(), res.Fn))
 		}
 	}
+	if spec.Implicit && spec.ImmutChk && !spec.NoPanic && !spec.Lockset {
+		var keep []*Obligation
+		for _, o := range x.obls {
+			if o.Kind == "immutable" || o.Kind == "binding" || o.Kind == "engine" || strings.HasPrefix(o.Kind, "pre roaring.") || (strings.HasPrefix(o.Kind, "pre ") && strings.Contains(o.Name, "created here")) {
+				keep = append(keep, o)
+			}
+		}
+		x.obls = keep
+	}
 	if spec.Implicit && spec.Lockset && !spec.NoPanic {
 		// a lock-set sweep keeps only the lock-discipline obligations
 		var keep []*Obligation
